@@ -7,6 +7,7 @@ import (
 	"os"
 	"path/filepath"
 	"sort"
+	"strings"
 	"time"
 
 	"github.com/RoaringBitmap/roaring"
@@ -115,7 +116,7 @@ func diffCases(r *vf.Run, groupMode bool) []diffCase {
 	}
 	nr := r.Pick(20, 120)
 	if groupMode {
-		nr = r.Pick(14, 120)
+		nr = r.Pick(30, 160)
 	}
 	for i := 0; i < nr; i++ {
 		var n int
@@ -134,9 +135,14 @@ func diffCases(r *vf.Run, groupMode bool) []diffCase {
 	if r.Thorough() && !groupMode {
 		cases = append(cases, diffCase{id: "big150k", rows: 150000})
 	}
+	cases = append(cases, diffCase{id: "concat-small", rows: 60}, diffCase{id: "concat-1200", rows: 1200})
 	for i := range cases {
 		c := &cases[i]
 		c.opts = gen.DatasetOpts{Rows: c.rows, MaxCols: 6, HostileCols: i%3 == 1, HostileVals: i%2 == 1, EmptyRows: i%4 != 3}
+		if strings.HasPrefix(c.id, "concat") {
+			c.opts.Concat = true
+			c.opts.HostileCols, c.opts.HostileVals = false, false
+		}
 		if groupMode {
 			// group-by needs moderate cardinalities and profits from several columns
 			c.opts.MaxCard = 1200
